@@ -139,6 +139,26 @@ def gen(rng, tier):
             ops.append(o)
         yield {"k": "ops", "init": M([("l", A([U(1), U(2), U(3)])), ("a", M([("b", U(1))]))]), "optsInit": [], "ops": ops,
                "_tag": "nameidx", "_nt": True, "_sig": "nameidx|" + ",".join(sorted(set(o["op"] + str(min(max(o["idx"], -2), 2)) for o in ops)))}
+    # (c2) lists shortened by removals (spare capacity) and then written behind their end, read after every step
+    for _ in range(80 if tier == "quick" else 800):
+        m = 3 + rng.below(6)
+        top = rng.chance(0.4)
+        init = A([U(i) for i in range(m)]) if top else M([("l", A([U(i) for i in range(m)])), ("k", U(1))])
+        nm = "" if top else "l"
+        bo = [opt("PathSep", ".")] if rng.chance(0.5) else []
+        ops = []
+        length = m
+        for _ in range(1 + rng.below(4)):
+            if length > 0:
+                ops.append({"op": "remove", "h": 0, "name": nm, "idx": rng.below(length), "opts": bo}); length -= 1
+        for _ in range(1 + rng.below(3)):
+            idx = length + rng.below(m - length + 2)
+            ops.append({"op": "set", "h": 0, "name": nm, "idx": idx, "val": U(7), "opts": bo}); length = max(length, idx + 1)
+            ops.append({"op": "get", "h": 0, "type": "Int", "name": nm, "idx": max(idx - 1, 0), "opts": bo})
+            if rng.chance(0.4) and length > 0:
+                ops.append({"op": "remove", "h": 0, "name": nm, "idx": rng.below(length), "opts": bo}); length -= 1
+        yield {"k": "ops", "init": init, "optsInit": [], "ops": ops, "_tag": "shrink-then-grow", "_nt": True,
+               "_sig": "shrinkgrow|%s|%d|%d" % (top, m, len(ops))}
     # (d) unpack targets of every kind
     odd = [TG.T("chan"), TG.T("func"), TG.T("complex"), TG.T("iface"), TG.T("int"), TG.T("ptr", e=TG.T("int")), TG.T("badmap", e=TG.T("int")),
            TG.T("ptr", e=TG.T("ptr", e=TG.T("struct", f=[{"n": "A", "tag": "", "v": "", "ty": TG.T("int")}]))),
